@@ -70,6 +70,9 @@ structure Session (σ : Type) where
   it : Option (IT.St σ) := none
   srcProv : TMap (Option Prov) := TMap.mk' none
   mlDone : Bool := false
+  /-- of_finish_decoding has turned the parity-check matrix into the linear system of a Gaussian elimination (which succeeded
+  or failed): later submissions are only registered, later finish calls cannot decode any more -/
+  mlConsumed : Bool := false
   -- encoder
   /-- codec 5 (2D parity): a linear binary code like LDPC-Staircase (`codec` is 3 internally: same decoders, same symbol
   alphabet) with its own matrix construction, limits and control parameters -/
@@ -217,7 +220,8 @@ def ldpcRecv (IO : SymIO σ) (s : Session σ) (p : Params) (esi : Nat) (v : σ) 
   | some it =>
     let O := IO.ops 3 p.m p.len
     let fresh := !it.known esi
-    let it' := IT.submit O p.n it esi v
+    -- once Gaussian elimination has consumed the matrix a fresh symbol is registered, nothing is injected
+    let it' := if s.mlConsumed then (if fresh then { it with sym := it.sym.set esi (some v) } else it) else IT.submit O p.n it esi v
     let s1 := if fresh && esi < p.k then { s with srcProv := s.srcProv.set esi (some (.app j)) } else s
     let (s2, ev) := ldpcAfter s1 p it it'
     (.ok, s2, ev)
@@ -228,6 +232,7 @@ def ldpcFinish (IO : SymIO σ) (s : Session σ) (p : Params) : Status × Session
   | none => (.fatal, s, [])
   | some it =>
     if it.complete then (.ok, { s with mlDone := true }, [])
+    else if s.mlConsumed then (.failure, s, [])
     else
       let O := IO.ops 3 p.m p.len
       let unk := ((List.range' p.k p.r) ++ (List.range p.k)).filter fun e => !it.known e
@@ -239,13 +244,13 @@ def ldpcFinish (IO : SymIO σ) (s : Session σ) (p : Params) : Status × Session
         else none
       if rows.length < q then (.failure, { s with mlDone := true }, [])
       else match Gauss.solve O q rows with
-        | none => (.failure, { s with mlDone := true }, [])
+        | none => (.failure, { s with mlDone := true, mlConsumed := true }, [])
         | some xs =>
           let sol := List.zip unk xs
           let srcs := sol.filter (·.1 < p.k)
           let it' := srcs.foldl (fun (t : IT.St σ) pr => { t with sym := t.sym.set pr.1 (some pr.2) }) it
           let sp := srcs.foldl (fun (m : TMap (Option Prov)) pr => m.set pr.1 (some (cbDest s.cb pr.1))) s.srcProv
-          (.ok, { s with it := some it', srcProv := sp, mlDone := true }, srcs.map (·.1))
+          (.ok, { s with it := some it', srcProv := sp, mlDone := true, mlConsumed := true }, srcs.map (·.1))
 
 /-! ## the step function: one protocol line -/
 
